@@ -576,6 +576,9 @@ def plan_post(prop):
                     res.oblige(p.pc_at(e2), f'{prop}.plan.stores_only_under_this_path',
                                z3.Or(sym.lift(e2.data['key'], STR).z == fpath, z3.BoolVal(e2.data['target'].ty == Dict(BYTES, List(REF)))))
                 # refs are walked in counter order (the order in which the chunks followed each other in the stream)
+                if not p.events('sorted'):
+                    # no ordering step at all: the parts would be placed in LIST order, which the format does not define
+                    res.oblige(pc, f'{prop}.plan.refs_in_counter_order', z3.BoolVal(False))
                 for se in p.events('sorted'):
                     x = z3.Int('so_x')
                     res.oblige(p.pc_at(se), f'{prop}.plan.refs_in_counter_order', z3.And(
